@@ -1,5 +1,6 @@
 import WindVerif.Proofs.Storage
 import WindVerif.Proofs.StorageSession
+import WindVerif.Proofs.StorageSeq
 /-!
 # C14 — TextFileStorage: what is stored under an id is what any process reads back
 
@@ -154,5 +155,99 @@ example : ((run (start (init 0 [[.store 0 5, .close, .store 1 6], [.read 0, .rea
 example : ((run (start (init 0 [[.store 0 5, .close, .store 1 6], [.read 0, .read 1]])) (List.replicate 36 0)).map
       (fun s => (s.index, s.files))) =
     some ([some (0, 0), some (0, 2)], [(0, [some 5, none, some 6, none])]) := by decide
+
+end WindVerif.C14
+
+/-!
+### a store whose write raises — the sequential specification (`Model/StorageSeq.lean`)
+
+One process, one operation at a time; the state is `_index` (id → text or `None`), `_stored_cnt`, `_waiting_for`.
+`store g t false` is a `__setitem__` whose `print(data, file=self._file, flush=True)` raises (e.g. a text the encoding of the
+file cannot hold): the index has been extended with `None`s, nothing else has happened.  The names carry the prefix `seq_`
+(`store_once` and `contiguous_iff` above are the theorems about the interleaving model).
+-/
+namespace WindVerif.C14
+open WindVerif.StorageSeq
+
+/-- a store of a free id whose write raises leaves the storage as it was: result `raised`; the map id → text, every read
+(reading `g` raises `IndexError`), `len`, `_waiting_for`, `is_contiguous` and the iteration are unchanged; a following store
+of `g` succeeds and is read back -/
+theorem seq_failed_store_frees_id (s : St) (g t t' : Nat) (hfree : s.get g = none) :
+    (store s g t false).2 = .raised ∧
+    (∀ i, (store s g t false).1.get i = s.get i) ∧
+    read (store s g t false).1 g = .indexError ∧
+    (∀ i, read (store s g t false).1 i = read s i) ∧
+    len (store s g t false).1 = len s ∧
+    (store s g t false).1.waiting = s.waiting ∧
+    contiguous (store s g t false).1 = contiguous s ∧
+    iter (store s g t false).1 = iter s ∧
+    (store (store s g t false).1 g t' true).2 = .ok ∧
+    read (store (store s g t false).1 g t' true).1 g = .text t' := by
+  first | exact WindVerif.StorageSeq.failed_store_frees_id .. | (apply WindVerif.StorageSeq.failed_store_frees_id <;> assumption)
+
+/-- non-vacuity: id 2 stored, then a store of id 0 raises (id 0 is free) -/
+example : (run St.empty [.store 2 7 true]).get 0 = none := by decide
+
+/-- a successful store of `g`; every further store of `g` (any text, write raising or not) raises `ValueError` and
+changes nothing -/
+theorem seq_store_once (s : St) (g t t' : Nat) (ok' : Bool) (hfree : s.get g = none) :
+    (store s g t true).2 = .ok ∧ read (store s g t true).1 g = .text t ∧
+    store (store s g t true).1 g t' ok' = ((store s g t true).1, .valueError) := by
+  first | exact WindVerif.StorageSeq.store_once .. | (apply WindVerif.StorageSeq.store_once <;> assumption)
+
+/-- a store (successful or not) does not touch the other ids -/
+theorem seq_store_other (s : St) (g t i : Nat) (ok : Bool) (hne : i ≠ g) : (store s g t ok).1.get i = s.get i := by
+  first | exact WindVerif.StorageSeq.store_other .. | (apply WindVerif.StorageSeq.store_other <;> assumption)
+
+/-- after any script (failed stores included) from `TextFileStorage(path, number_of_data=n)`: `len` is the number of ids
+holding a text, and the number of texts iterated -/
+theorem seq_len_is_count (n : Nat) (ops : List Op) :
+    len (run (St.init n) ops) = (storedIds (run (St.init n) ops)).length ∧
+    len (run (St.init n) ops) = (iter (run (St.init n) ops)).length := by
+  first | exact WindVerif.StorageSeq.len_is_count .. | (apply WindVerif.StorageSeq.len_is_count <;> assumption)
+
+/-- after any script: `is_contiguous()` is true exactly when the ids holding a text are `0 … len-1` -/
+theorem seq_contiguous_iff (n : Nat) (ops : List Op) :
+    contiguous (run (St.init n) ops) = true ↔
+      ∀ i, ((run (St.init n) ops).get i).isSome = true ↔ i < len (run (St.init n) ops) := by
+  first | exact WindVerif.StorageSeq.contiguous_iff .. | (apply WindVerif.StorageSeq.contiguous_iff <;> assumption)
+
+/-- after any script: `_waiting_for` is the smallest id that holds no text -/
+theorem seq_waiting_is_first_gap (n : Nat) (ops : List Op) :
+    (∀ i, i < (run (St.init n) ops).waiting → ((run (St.init n) ops).get i).isSome = true) ∧
+    (run (St.init n) ops).get (run (St.init n) ops).waiting = none := by
+  first | exact WindVerif.StorageSeq.waiting_is_first_gap .. | (apply WindVerif.StorageSeq.waiting_is_first_gap <;> assumption)
+
+/-- iteration yields the texts in the order of their ids: `storedIds` is strictly increasing, holds exactly the ids with a
+text, and the iteration is the list of their texts -/
+theorem seq_iter_sorted_by_id (s : St) :
+    (storedIds s).Pairwise (· < ·) ∧ (∀ i, i ∈ storedIds s ↔ (s.get i).isSome = true) ∧
+    (iter s).map some = (storedIds s).map s.get := by
+  first | exact WindVerif.StorageSeq.iter_sorted_by_id .. | (apply WindVerif.StorageSeq.iter_sorted_by_id <;> assumption)
+
+/-- `flush()` gives the initial state: nothing stored, nothing to read or iterate, contiguous; every id can be stored again -/
+theorem seq_flush_resets (s : St) (g t : Nat) :
+    (step s .flush).1 = St.empty ∧ len (step s .flush).1 = 0 ∧ contiguous (step s .flush).1 = true ∧
+    iter (step s .flush).1 = [] ∧ read (step s .flush).1 g = .indexError ∧
+    (store (step s .flush).1 g t true).2 = .ok ∧ read (store (step s .flush).1 g t true).1 g = .text t := by
+  first | exact WindVerif.StorageSeq.flush_resets .. | (apply WindVerif.StorageSeq.flush_resets <;> assumption)
+
+/-- the fuel of the `_waiting_for` loop of the model suffices: when it stops, the condition of the `while` is false -/
+theorem seq_advance_fuel (idx : List (Option Nat)) (stored w : Nat) :
+    ¬ (advance idx stored (stored - w) w < stored ∧ (idx.getD (advance idx stored (stored - w) w) none).isSome = true) := by
+  first | exact WindVerif.StorageSeq.advance_fuel .. | (apply WindVerif.StorageSeq.advance_fuel <;> assumption)
+
+/-- a session: id 2 stored; a store of id 0 raises — id 0 unreadable, `len` 1, not contiguous, iteration `[7]`; id 0 stored
+again with another text, read back; a second store of it raises `ValueError`; id 1 fills the gap (contiguous, iteration in
+id order); `flush`, `len` 0 -/
+example : results St.empty
+    [.store 2 7 true, .store 0 5 false, .read 0, .len, .contiguous, .iter, .store 0 6 true, .read 0, .store 0 8 true,
+     .store 1 9 true, .contiguous, .iter, .len, .flush, .len, .read 2] =
+    [.ok, .raised, .indexError, .num 1, .bool false, .texts [7], .ok, .text 6, .valueError,
+     .ok, .bool true, .texts [6, 9, 7], .num 3, .ok, .num 0, .indexError] := by decide
+
+/-- the same failed store on a pre-sized index -/
+example : results (St.init 3) [.store 1 4 false, .len, .iter, .contiguous, .store 1 4 true, .read 1] =
+    [.raised, .num 0, .texts [], .bool true, .ok, .text 4] := by decide
 
 end WindVerif.C14
